@@ -25,7 +25,7 @@ overlay() {
   # working tree (DESIGN.md 2.5); cached by the hash of the package sources.
   [ -x .build/mapshim ] || go build -o .build/mapshim ./shim/mapshim 2>/dev/null || return 1
   local h
-  h=$(cat "$REPO"/ddsketch/store/*.go shim/mapshim/main.go 2>/dev/null | sha256sum | cut -c1-24) || return 1
+  h=$( (echo "$REPO"; cat "$REPO"/ddsketch/store/*.go shim/mapshim/main.go 2>/dev/null) | sha256sum | cut -c1-24) || return 1
   OV="$VERIF_DIR/.build/ov-$h"
   if [ ! -f "$OV/report.json" ]; then
     rm -rf "$OV"
